@@ -1741,6 +1741,52 @@ def buf_reset(chk, program, rule='BUF-RESET'):
     chk.check(ok, rule, f"{cq}::fresh-buffer", file=IO, line=g.fn.lineno, func=cq, expected=f"self.{buf} = bytearray() (or .clear()) on every normal path of _connect_impl",
               found='reset' if ok else 'the buffer survives a reconnect', detail='' if ok else 'a fragment left by the lost connection is glued in front of the first packet of the new one: that frame is lost or mis-decoded')
 
+def close_order(chk, program, rule='CLOSE-DOES'):
+    """close() may be called from inside the receive callback (i.e. by the process-queue task itself): cancelling that task and then awaiting
+    anything raises CancelledError in close().  The link must therefore be shut before the first suspension that follows a task cancellation:
+    on every path from the entry of close() to an await that a `.cancel()` can precede, `self.writer.close()` has been passed (unless the
+    path established that there is no writer)."""
+    from .cfg import must_fact, implied_edges
+    q = f"{BASE}.close"
+    g = cfg_of(program, q)
+    cancels = [nid for nid, c in nodes_calling(g, lambda c: isinstance(c.func, ast.Attribute) and c.func.attr == 'cancel' and not c.args)]
+    closes = [nid for nid, c in nodes_calling(g, lambda c: isinstance(c.func, ast.Attribute) and c.func.attr == 'close' and is_self_attr(c.func.value, ('writer',)))]
+    if not cancels:
+        return
+    def world(e):          # the world "a writer exists"
+        if is_self_attr(e, ('writer',)):
+            return True
+        if isinstance(e, ast.Compare) and len(e.ops) == 1 and is_self_attr(e.left, ('writer',)) and isinstance(e.comparators[0], ast.Constant) and e.comparators[0].value is None:
+            return isinstance(e.ops[0], (ast.IsNot, ast.NotEq))
+        return NotImplemented
+    shut = must_fact(g, gen_nodes=closes, gen_edges=implied_edges(g, world))
+    bad = []
+    for a in sorted(g.await_nodes()):
+        if any(a in g.reach(cn) for cn in cancels) and not shut[a]:
+            bad.append(a)
+    chk.check(not bad, rule, 'close::link-shut-before-awaiting-after-a-cancel', file=IO, line=g.nodes[bad[0]].line if bad else g.fn.lineno, func='close',
+              expected='self.writer.close() happens before the first await that can follow a task cancellation',
+              found='ok' if not bad else [f"await at line {g.nodes[a].line}: {stmt_key(g.nodes[a].ast)}" for a in bad[:2]],
+              detail='' if not bad else 'close() called from the receive callback cancels its own task; the CancelledError raised at that await skips the rest of close(), so the link would stay open')
+
+def lock_owner(chk, program, rule='SEND-ATOMIC'):
+    """an explicitly released lock is released only by the invocation that acquired it: every path to `<lock>.release()` passes the matching
+    `await <lock>.acquire()` of the same function (a release reachable from before the acquire frees a lock held by another task)"""
+    from .cfg import must_fact
+    n = 0
+    for qn in (f"{BASE}.send", f"{BASE}.connect"):
+        g = cfg_of(program, qn)
+        rel = nodes_calling(g, lambda c: isinstance(c.func, ast.Attribute) and c.func.attr == 'release' and not c.args)
+        for nid, c in rel:
+            lk = ast.unparse(c.func.value)
+            acq = [x for x, cc in nodes_calling(g, lambda c2: isinstance(c2.func, ast.Attribute) and c2.func.attr == 'acquire' and ast.unparse(c2.func.value) == lk)]
+            held = must_fact(g, gen_nodes=acq)
+            n += 1
+            chk.check(bool(acq) and held[nid], rule, f"{qn}::release-by-owner::{lk}", file=IO, line=c.lineno, func=qn,
+                      expected=f"every path to {lk}.release() has passed {lk}.acquire() in this invocation", found='ok' if acq and held[nid] else 'release reachable without the acquire',
+                      detail='' if acq and held[nid] else 'e.g. an exception raised before the acquire (an unencodable message) reaches the finally clause and releases the lock another sender holds: its packets can then be interleaved')
+    return n
+
 def rx_raise(chk, program, rule='RX-RAISE'):
     """a raise in a _receive_impl ends the connection: it may depend only on end of stream (emptiness of the raw read result) or on the
     gateway's literal busy banner -- never on the content of a line / packet"""
